@@ -545,13 +545,15 @@ func (c *Checker) learnTokens(x *callCtx) {
 		if WellFormedTokenID(call.Args[0]) {
 			c.known[tok] = true
 		}
-		if argHas(call.Args[1:], RoleNFTCreate) && c.creators(tok) > 1 {
-			c.undisciplined[tok] = true // a second creator
+		if argHas(call.Args[1:], RoleNFTCreate) && (c.creators(tok) > 1 || c.counterElsewhere(call.Rcv, tok)) {
+			// a second creator — or the role given to an account while the token's counter sits with another one (the
+			// system contract took the role back from its holder, which the real one refuses to do, and moved it by
+			// hand instead of by a hand-over)
+			c.undisciplined[tok] = true
 		}
 	case FnUnSetRole:
-		if argHas(call.Args[1:], RoleNFTCreate) {
-			c.undisciplined[tok] = true // the system contract never unsets the create role
-		}
+		// taking the create role back leaves the counter with the account: the token stays disciplined as long as
+		// the role only ever returns to the account that keeps the counter (judged at the ESDTSetRole above)
 	case FnLocalMint, FnNFTCreate:
 		if WellFormedTokenID(call.Args[0]) {
 			c.known[tok] = true
@@ -566,6 +568,18 @@ func (c *Checker) learnTokens(x *callCtx) {
 			}
 		}
 	}
+}
+
+// counterElsewhere: some account other than addr, on any shard, keeps a non-zero create counter of tok.
+func (c *Checker) counterElsewhere(addr []byte, tok string) bool {
+	for s := 0; s < c.w.NumShards(); s++ {
+		for _, a := range c.w.Accounts(s) {
+			if !bytes.Equal(a.Address(), addr) && U64(a.Get(NoncePrefix+tok)) > 0 {
+				return true
+			}
+		}
+	}
+	return false
 }
 
 // creatorsBefore counts the create-role holders of tok in the state before the call x (executing
@@ -684,6 +698,21 @@ func (c *Checker) checkGates(x *callCtx, diffs []diffSlot) {
 	var sys map[string][]byte
 	if s := x.pre[string(SystemAccount)]; s != nil {
 		sys = s.storage
+	}
+	// an accepted pause / un-pause takes effect where every other function looks: the flag of the token under the ONE
+	// system account of the shard the call ran on (whatever spelling of the system address the call was sent to)
+	if (fn == FnPause || fn == FnUnPause) && x.isSys && x.res != nil && x.res.Status == "ok" && x.fault < 0 && len(x.call.Args) == 1 {
+		key := EsdtPrefix + string(x.call.Args[0])
+		after := map[string][]byte{key: sys[key]}
+		for _, d := range diffs {
+			if d.storage && d.key == key && bytes.Equal(d.addr, SystemAccount) {
+				after[key] = d.new
+			}
+		}
+		if pausedIn(after, key) != (fn == FnPause) {
+			c.report(x, "C04", "%s of %q was accepted on shard %d (sent to %x), yet the token's pause flag under the system account is %v afterwards",
+				fn, x.call.Args[0], x.call.Shard, x.call.Rcv, pausedIn(after, key))
+		}
 	}
 	for _, d := range diffs {
 		if !d.storage || !strings.HasPrefix(d.key, EsdtPrefix) || bytes.Equal(d.addr, SystemAccount) || bytes.Equal(d.addr, ESDTSC) {
